@@ -155,9 +155,10 @@ def main():
             for a in c.assumptions:
                 if a not in assumptions:
                     assumptions.append(a)
+        base_by = {(r["cls"], r["structure"]): r for r in res}
         for r in mres:
             k = "%s :: %s" % (r["contract"], r["mutant"])
-            ref = any(o["status"] == "refuted" for o in r["obligations"].values())
+            ref = runner.mutant_refuted(r, base_by.get((r["cls"], r["structure"])))
             err = r.get("error")
             st = mutant_report.get(k, "not-refuted")
             if ref:
